@@ -29,13 +29,21 @@ REPO_SRC = os.environ.get("VERIF_REPO_SRC", "/repo/")
 
 
 def raised_in_repo(ex):
-    """innermost traceback frame of `ex` lies in the repository under test"""
+    """the exception comes out of the repository under test: the deepest traceback frame that belongs to either the
+    repository or the harness (props/) is a repository frame (frames of the engine, the numpy shim, numpy or xarray
+    below it are calls made BY the repository code)"""
     tb = ex.__traceback__
-    last = None
+    k = 0
+    repo_at = harness_at = -1
     while tb is not None:
-        last = tb
+        fn = os.path.abspath(tb.tb_frame.f_code.co_filename)
+        if fn.startswith(REPO_SRC):
+            repo_at = k
+        elif os.sep + "props" + os.sep in fn:
+            harness_at = k
+        k += 1
         tb = tb.tb_next
-    return last is not None and os.path.abspath(last.tb_frame.f_code.co_filename).startswith(REPO_SRC)
+    return repo_at > harness_at
 
 
 class HarnessError(Exception):
